@@ -1103,14 +1103,19 @@ impl ActiveFile {
 fn dir_prefix_ext(file_set: impl AsRef<Path>) -> Result<(String, String, String), Error> {
     let file_set = file_set.as_ref();
 
-    let dir = if let Some(parent) = file_set.parent() {
+    // A file set without a directory, like `log.txt`, has an empty parent
+    // That isn't a path we can list or sync, so use the current directory instead
+    let dir = if let Some(parent) = file_set
+        .parent()
+        .filter(|parent| !parent.as_os_str().is_empty())
+    {
         parent
             .to_str()
             .ok_or_else(|| "paths must be valid UTF8")
             .map_err(Error::new)?
             .to_owned()
     } else {
-        String::new()
+        String::from(".")
     };
 
     let prefix = file_set
